@@ -91,6 +91,31 @@ impl<'a> Tracer<'a> {
         self.emit(json!({"ev": "Undo", "m": Mv::of(m).to_json(), "res": res}), board);
         ok
     }
+    /// a copy of the board must be the board: same observables now, and the same after taking the last
+    /// move back on the copy (the copy carries the whole history, not only the current values)
+    pub fn clone_check(&mut self, board: &Board, last: Option<&(ChessMove, bool)>) -> bool {
+        let c = match guarded(|| board.clone()) {
+            Ok(c) => c,
+            Err(_) => return false,
+        };
+        self.emit(json!({"ev": "Clone"}), &c);
+        if let Some((m, reg)) = last {
+            let mut c2 = c;
+            let r = guarded(|| {
+                if *reg {
+                    c2.uncount_current_position();
+                }
+                c2.toggle_turn();
+                m.undo(&mut c2).is_ok()
+            });
+            if let Ok(true) = r {
+                self.emit(json!({"ev": "CloneUndo", "m": Mv::of(m).to_json(), "reg": *reg}), &c2);
+            } else {
+                self.emit(json!({"ev": "CloneUndo", "m": Mv::of(m).to_json(), "reg": *reg, "failed": true}), board);
+            }
+        }
+        true
+    }
     pub fn toggle(&mut self, board: &mut Board) {
         board.toggle_turn();
         self.emit(json!({"ev": "Toggle"}), board);
@@ -229,6 +254,9 @@ fn walk(tr: &mut Tracer, rng: &mut Rng, gen: &mut MoveGenerator, start: Board, p
                 }
             }
             last_own = [None, None];
+        }
+        if rng.chance(1, 8) && !tr.clone_check(&h.board, h.stack.last()) {
+            return;
         }
         if style == "walk" && rng.chance(1, 5) {
             let w = rng.below(6);
